@@ -3,7 +3,7 @@
    Model/SimplifyG.v.  Compiled on every run against the text generated from /repo's current geometry.py. *)
 From Coq Require Import Bool List Reals Lia String PrimFloat.
 Import ListNotations.
-From TL Require Import Model.Num Model.Geom Model.SimplifyG Proofs.GeomAlg Proofs.GeomProj Proofs.Geom_bridge Proofs.PolyMin Proofs.Poly_bridge Proofs.MapMatch_sound Props.C16 Props.C20.
+From TL Require Import Model.Num Model.Geom Model.SimplifyG Model.Visvalingam Proofs.GeomAlg Proofs.GeomProj Proofs.Geom_bridge Proofs.PolyMin Proofs.Poly_bridge Proofs.MapMatch_sound Props.C16 Props.C20.
 From TLGen Require Import GeomGen.
 
 Section Eq.
@@ -157,7 +157,34 @@ Example gen_proj_polyligne_runs :
   = embed infinity (Geom.proj_polyligne FNum 0x1.cd2b297d889bcp-54%float [(0, 0); (2, 1); (4, 0)]%float 4%float 3%float).
 Proof. vm_compute. reflexivity. Qed.
 
+
+(* ---- triangle_area (the effective area of Visvalingam's simplification, C16): the expression translated from the source is the model's area3.
+   The model of Visvalingam runs on rationals; the structure below supplies their operations (triangle_area takes no square root: the generated
+   function does not depend on that field, gen_triangle_area_no_sqrt). ---- *)
+Lemma gen_triangle_area_literals : gen_triangle_area_consts = ["0.5"]%string.
+Proof. reflexivity. Qed.
+
+Lemma gen_triangle_area_no_sqrt (T : Type) z o a s m d op sq sq' ab le lt eq (c x0 y0 x1 y1 x2 y2 : T) :
+  gen_triangle_area (Build_Num T z o a s m d op sq ab le lt eq) c x0 y0 x1 y1 x2 y2 =
+  gen_triangle_area (Build_Num T z o a s m d op sq' ab le lt eq) c x0 y0 x1 y1 x2 y2.
+Proof. reflexivity. Qed.
+
+Definition QNum (sq : QArith_base.Q -> QArith_base.Q) : Num QArith_base.Q :=
+  {| zero := QArith_base.inject_Z 0; one := QArith_base.inject_Z 1; add := QArith_base.Qplus; sub := QArith_base.Qminus; mul := QArith_base.Qmult;
+     div := QArith_base.Qdiv; opp := QArith_base.Qopp; sqrt := sq; abs := Qabs.Qabs;
+     leb := Visvalingam.Qleb; ltb := Visvalingam.Qltb; eqb := QArith_base.Qeq_bool |}.
+
+Theorem gen_triangle_area_eq sq (x0 y0 x1 y1 x2 y2 : QArith_base.Q) :
+  gen_triangle_area (QNum sq) (QArith_base.Qmake 1 2) x0 y0 x1 y1 x2 y2 = Visvalingam.area3 (x0, y0) (x1, y1) (x2, y2).
+Proof. reflexivity. Qed.
+
+(* the same expression at the reals is half the absolute cross product of the two legs: the area of the triangle *)
+Theorem gen_triangle_area_real (x0 y0 x1 y1 x2 y2 : R) :
+  gen_triangle_area RNum (1 / 2)%R x0 y0 x1 y1 x2 y2 = (Rabs ((x1 - x0) * (y2 - y1) - (x2 - x1) * (y1 - y0)) / 2)%R.
+Proof. unfold gen_triangle_area. cbn [mul sub abs RNum]. field. Qed.
+
 Print Assumptions gen_distance_to_segment_nearest.
 Print Assumptions gen_proj_segment_sound.
 Print Assumptions gen_proj_polyligne_eq.
 Print Assumptions gen_proj_polyligne_nearest.
+Print Assumptions gen_triangle_area_eq.
